@@ -25,14 +25,14 @@ P = {
          'Coq proof (Gauss-Jordan invariants, symplectic right inverse, group axioms) + correspondence exhaustive on 24x24 one-qubit pairs and all 2x2/3x3 matrices', '5/C04'),
  'C05': ('Invariant by induction over histories: for the alphabet of public state-changing operations (rotate, transform, masked variants, gate forward/backward, measure with any coin '
          'schedule, measurement layer, postselect, copy, map round trip) every step preserves tableau_ok, hence every reachable state from every constructor satisfies it; consequences: '
-         'commuting Hermitian generators, exactly N-r of them, independence and "-I never a stabilizer" (C06). PARTIAL: positivity / trace one of the denoted operator is the cited textbook step.',
+         'commuting Hermitian generators, exactly N-r of them, independence and "-I never a stabilizer" (C06). The density polynomial of every valid tableau has matrix trace 1 and satisfies rho*rho = 2^-r rho entrywise in the ket semantics (Hermitian idempotent up to scale); PARTIAL only in that "Hermitian idempotent => positive" is the cited textbook step.',
          'Coq proof (symplectic pair-update lemma for the scan, invariant lifted over op lists) + lock-step random walks of model and implementation with dense validity checks', '5/C05'),
  'C06': ('Theorems for all N, ranks, signs and both coins: determined case (state unchanged, lp 0, outcome = eigenvalue fixed by the state), undetermined case (expectation 0, outcome = coin, lp -1, '
          '(-1)^out O becomes a stabilizer, rank drops iff no active stabilizer anticommutes), commuting stabilizers survive, repetition returns the same outcome with lp 0, non-degeneracy, '
-         'independence, sign uniqueness. PARTIAL: post-state stated at the group level, dense P rho P/Tr compared by the correspondence check.',
+         'independence, sign uniqueness; the post-measurement stabilizer group is EXACTLY {b, b.(+-O) : b in the old group commuting with O} (both inclusions), unchanged in the determined case. PARTIAL: the step from the group to the matrix P rho P/Tr is compared densely, not formalised.',
          'Coq proof (scan characterisation + non-degeneracy via the inverse map) + correspondence with recovered coins and dense Born/projection oracle', '5/C06'),
  'C07': ('Theorems for all N: expect = +1 iff O in the stabilizer group, -1 iff -O is, 0 iff some stabilizer/standby row anticommutes, and no other value; lists entrywise; polynomial path = phase- and '
-         'coefficient-weighted sum. Overlaps and get_prob: invariant proved, values tied by correspondence to the dense traces (all readouts summed).',
+         'coefficient-weighted sum; the value computed by the kernel IS Tr(rho O) (sum of diagonal ket amplitudes of the density polynomial times O) for every valid tableau. Overlaps and get_prob: invariant proved, values tied by correspondence to the dense traces (all readouts summed).',
          'Coq proof (group membership via spanning/non-degeneracy) + correspondence np+torch with dense Tr(rho O) oracle', '5/C07'),
  'C08': ('Theorems: z2rank as implemented is the dimension of the row space (basis existence + Steinitz), rank depends on the span only; mixed branch = |A|-L+rank(complement) for all N; pure branch = '
          'same formula for ALL generating sets of ALL pure states, N<=3, by complete enumeration; empty/full region; generator independence. PARTIAL: entropy value of a stabilizer state is the cited spectral fact.',
@@ -44,18 +44,18 @@ P = {
          'correspondence numpy == torch == model over the shared surface (enumerated, unmatched names reported). Open port findings listed in known_findings.json.',
          'regenerated-formula equalities in Coq + three-way differential correspondence', '5/C13'),
  'C14': ('Theorems for EVERY program interleaving gates and measurement layers, every state and coin schedule: the layered Circuit computes the instruction-by-instruction trajectory; measurement layers '
-         'stay in program order and no gate crosses one; one +-1 result per measured qubit in order; shape and rank bound preserved. Post-selection and backward: model tied by correspondence + dense trajectory oracle.',
+         'stay in program order and no gate crosses one; one +-1 result per measured qubit in order; shape and rank bound preserved; one post-selection on a pure state returns 1+<O> (Born) and projects or leaves unchanged accordingly. Repeated post-selection and backward: model tied by correspondence + dense trajectory oracle.',
          'Coq proof (segment-wise generalisation of the take lemma) + correspondence with recovered coins and dense trajectory / adjoint oracle', '5/C14'),
  'C15': ('Theorems over exact Gaussian rationals: sums, scalar multiples, negation, products (batch_dot) denote the matrix operations in the ket semantics; numbers add multiples of I; reduce merges exactly, '
          'drops only terms below tolerance, leaves distinct strings with zero phases; trace semantics. trace() phase defect refuted in Coq and reported as known finding. PARTIAL: IEEE rounding not modelled.',
          'Coq proof (ring homomorphism into monomial-matrix semantics) + expression-tree correspondence with dense oracle', '5/C15'),
  'C16': ('Theorems: random_pair is valid and exactly two-to-one for every accepted draw; recursion step; EXACT uniformity of random_clifford over Sp(2,2) (6) and Sp(4,2) (720) by enumeration of all 12 / 2880 '
-         'accepted raw draws; entangles. PARTIAL: fairness of the generators and rejection sampling are assumptions; chi-square support.',
+         'accepted raw draws; for ALL N the whole recursion returns a table with the canonical commutation relations whose first pair is the drawn pair; entangles. PARTIAL: fairness of the generators and rejection sampling are assumptions; chi-square support.',
          'Coq proof + complete enumeration (vm_compute) + replay of recorded draws through the model', '5/C16'),
  'C17': ('Memory-model theorems (frame rule): a copy with fresh arrays is faithful, shares nothing and stays independent under every history; queries (empty footprint) and in-place operations change '
          'nothing outside the receiver; the copy table regenerated from source shows every array attribute passed fresh and well bound. numpy/torch aliasing semantics are modelled; validated dynamically.',
          'Coq proof over a heap model + source-extracted copy tables + dynamic shares_memory / snapshot validation', '5/C17'),
- 'C18': ('Theorems for all N: pauli_diagonalize1 (<=2 rotations) maps every non-identity string to Z on the target qubit and never touches trivial qubits (causality), pauli_diagonalize2 for pairs; '
+ 'C18': ('Theorems for all N: pauli_diagonalize1 (<=2 rotations) maps every non-identity string to Z on the target qubit and never touches trivial qubits (causality), pauli_diagonalize2 for pairs; the layered circuit diagonalize(Pauli) returns maps the operator to +-Z on the target (causal variant: acts on later qubits only); '
          'signs by C02. SBRG: PARTIAL, float coefficients not modelled; diagonal form and exactness/spectrum checked by correspondence.',
          'Coq proof (case analysis following the code) + exhaustive N<=3 correspondence + SBRG dense spectrum oracle', '5/C18'),
  'C19': ('Theorems: sampled operators are group elements with expectation +1; selection -> element injective; binary_repr enumerates; density_matrix lists every group element exactly once; snapshots valid. '
